@@ -338,6 +338,15 @@ class Interp:
             self.call_depth -= 1
             self.cur_line, self.cur_file = saved
 
+    def _default_value(self, fi, node):
+        """a default argument is evaluated once, when the function is defined: a mutable default (`memo={}`, `cache=[]`) is one
+        object shared by all calls that use it"""
+        st = self.__dict__.setdefault('_default_state', {})
+        k = id(node)
+        if k not in st:
+            st[k] = self.eval(Frame(fi.module), node)
+        return st[k]
+
     def _bind(self, fr, fi, args, kwargs):
         a = fi.node.args
         params = [p.arg for p in a.posonlyargs + a.args]
@@ -351,7 +360,7 @@ class Interp:
             elif p in kwargs:
                 fr.vars[p] = kwargs.pop(p)
             elif i >= nreq:
-                fr.vars[p] = self.eval(Frame(fi.module), defaults[i - nreq])
+                fr.vars[p] = self._default_value(fi, defaults[i - nreq])
             else:
                 raise AbstractRaise('TypeError', f"{fi.qualname}() missing required positional argument: '{p}'")
         extra = args[len(params):]
@@ -363,7 +372,7 @@ class Interp:
             if p.arg in kwargs:
                 fr.vars[p.arg] = kwargs.pop(p.arg)
             elif d is not None:
-                fr.vars[p.arg] = self.eval(Frame(fi.module), d)
+                fr.vars[p.arg] = self._default_value(fi, d)
             else:
                 raise AbstractRaise('TypeError', f"missing keyword-only argument {p.arg}")
         if kwargs:
